@@ -1,6 +1,6 @@
 #!/usr/bin/env python3
 """Generates the simulation-build-only overlay of two Go runtime files (GOROOT of go1.26.8):
-runtime/rand.go, runtime/select.go and one line of runtime/time.go, so that program-visible runtime randomness
+runtime/rand.go, runtime/select.go, one line of runtime/time.go and one line of runtime/proc.go, so that program-visible runtime randomness
 (select among ready cases, order of synctest timers firing at the same fake instant, map seeds / iteration offsets, math/rand/v2 globals, process-wide
 hash keys) comes from a generator the harness reseeds at the start of every run.
 Refuses to proceed (exit 2) if an anchor is not found exactly once."""
@@ -71,6 +71,15 @@ s3 = open(p3).read()
 s3 = sub(s3, "\t\t\tt.rand = cheaprand()\n", "\t\t\tt.rand = simCheaprandn(1 << 31) // VERIF\n", "time.go")
 open(os.path.join(outdir, "time.go"), "w").write(s3)
 
-json.dump({"Replace": {p: os.path.join(outdir, "rand.go"), p2: os.path.join(outdir, "select.go"), p3: os.path.join(outdir, "time.go")}},
+# ---- proc.go: no time-slice preemption by sysmon while a simulated run is in progress
+# (under CPU load the 10 ms wall-clock slice expires at arbitrary points and reorders the
+# goroutines that one simulator action made runnable)
+p4 = os.path.join(goroot, "src/runtime/proc.go")
+s4 = open(p4).read()
+s4 = sub(s4, "\t\t} else if pd.schedwhen+forcePreemptNS <= now {\n\t\t\tpreemptone(pp)\n",
+         "\t\t} else if pd.schedwhen+forcePreemptNS <= now && !simRandOn { // VERIF\n\t\t\tpreemptone(pp)\n", "proc.go")
+open(os.path.join(outdir, "proc.go"), "w").write(s4)
+
+json.dump({"Replace": {p: os.path.join(outdir, "rand.go"), p2: os.path.join(outdir, "select.go"), p3: os.path.join(outdir, "time.go"), p4: os.path.join(outdir, "proc.go")}},
           open(os.path.join(outdir, "overlay.json"), "w"), indent=1)
 print(os.path.join(outdir, "overlay.json"))
